@@ -382,6 +382,12 @@ func runBubble(t *testing.T, f func() vrun.Result) vrun.Result {
 		if len(dump) > 20000 {
 			dump = dump[:20000]
 		}
+		// a library goroutine that stays parked on a mutex (two dumps 2 s apart) while the bubble cannot advance: the
+		// lock is held across a blocking call - Close (or a reader) waits behind a stalled operation for good
+		if site, text, ok := vrun.StuckOnMutex(); ok {
+			v := vrun.Violation("a library goroutine is parked on a mutex that is held across a blocking call: the transport makes no progress", "stuck-on-mutex:"+site, map[string]any{"goroutine": text})
+			return v
+		}
 		r := vrun.Inconcl("wall-clock watchdog: the bubble made no progress (a goroutine waiting for a sync.Mutex keeps virtual time from advancing)")
 		r.Witness = map[string]any{"dump": dump}
 		return r
